@@ -107,7 +107,16 @@ Outcome RunC02(RunCtx& ctx)
 		g.allowIntKeys = archive == A_MSGPACK;
 		if (s.chance(sim::L_CFG, 1, 2)) g.kindMask = s.draw(sim::L_CFG, 0xFFFFFFFFu) | (1u << static_cast<int>(K::I32));
 		doc = GenDocument(s, sim::L_DOC, g);
-		CallResult sv = SaveDynWith(ops, doc, bytes, o, OutCfg{});
+		// text archives: 1 run in 3 puts the document on the disk in a seeded UTF encoding (with or without BOM), the way the stream writer does
+		OutCfg docOut;
+		if (archive != A_MSGPACK && s.chance(sim::L_CFG, 1, 3))
+		{
+			docOut.stream = true;
+			o.streamOptions.encoding = static_cast<BitSerializer::Convert::Utf::UtfType>(s.draw(sim::L_CFG, 5));
+			o.streamOptions.writeBom = s.chance(sim::L_CFG, 1, 2);
+			ctx.count("enc." + std::to_string(static_cast<int>(o.streamOptions.encoding)) + (o.streamOptions.writeBom ? "+bom" : ""));
+		}
+		CallResult sv = SaveDynWith(ops, doc, bytes, o, docOut);
 		if (!sv.isStd) return Violation("WRONG_EXCEPTION", "archive=" + an + " dir=save", "non-std exception");
 		useOtherShape = s.chance(sim::L_CFG, 1, 3);
 		if (useOtherShape)
